@@ -229,6 +229,29 @@ def main(args):
                     recs.append(rec)
                     real[rid] = {"draft": d, "schema": S, "schema_with_foreign": S2, "instance": I, "errors_before": plain}
                     ck.count((d, repr(S), repr(S2), repr(I)), bool(plain))
+    # the other drafts' identifier keyword at the root of a RETRIEVED document: it names nothing there either
+    import copy
+    from harness import tracing
+    js = __import__("jsonschema")
+    A, B = "http://x.invalid/a.json", "http://x.invalid/b.json"
+    for d in DRAFTS:
+        other_id = "$id" if d <= 4 else "id"
+        S = {"properties": {"p": {"$ref": A}, "q": {"$ref": B}, "r": {"$ref": A + "#/definitions/n"}}}
+        base_docs = {A: {"type": "integer", "definitions": {"n": {"type": "null"}}}, B: {"type": "string"}}
+        for where in ((), ("definitions", "n")):
+            alt_docs = copy.deepcopy(base_docs)
+            alt_docs[A] = insert_at(alt_docs[A], where, other_id, B)
+            for I in ({"p": 1, "q": "s"}, {"p": "x", "q": 1, "r": 0}, {"q": 5, "p": 2}, {"r": None, "q": "t"}):
+                outs = []
+                for docs in (base_docs, alt_docs):
+                    h = tracing.CountingHandler(docs)
+                    res = js.RefResolver.from_schema(copy.deepcopy(S), id_of=_cls()[d].ID_OF, handlers={"http": h})
+                    outs.append(outcome_of(lambda: sorted(errrec.canon_obs(errrec.obs_err(e)) for e in _cls()[d](S, resolver=res).iter_errors(I))))
+                ck.count((d, "remote", repr(where), repr(I)), True)
+                if outs[0] != outs[1]:
+                    ck.violation("foreign_changes_errors", {"draft": d, "schema": S, "retrieved_documents": base_docs,
+                                                            "retrieved_documents_with_foreign": alt_docs, "instance": I,
+                                                            "observed_errors": repr(outs[1])[:300], "errors_before": repr(outs[0])[:300]})
     wd = tlc.workdir("c10lib")
     lib = calibrate.write_lib(wd + "/lib.json")
     bad, states = tlc.validate_trace("trace/Trace_Errors.tla", recs, "c10", shards=16, env={"LIB_FILE": lib})
